@@ -7,8 +7,11 @@
 // node's Kmin/Kmax = min/max key of its subtree, intermediate nodes hold no names, no empty subtrees,
 // every key's Value = the map's, absent keys (neighbours of present keys, "", below min, above max, the
 // rest of the key universe) not found, KeyList/Process = the map's sorted keys.
-// Layer 2 puts the tree into a real document (Root /Names /Dests or /EmbeddedFiles), writes it, re-reads it
-// raw and through pdfcpu, continues editing the re-read tree and writes/re-reads again.
+// Layer 2 puts the tree into a real document (Root /Names /Dests or /EmbeddedFiles): either pkg/testdata/test.pdf
+// with a tree installed by LocateNameTree(.., true) and filled by Add, or a document made by the independent
+// generator (internal/pdfgen) that already holds a multi-level tree of foreign shape, read by pdfcpu. The tree is
+// edited, the document written, re-read raw (internal/pdfstrict + own name tree walk, no pdfcpu code) and through
+// pdfcpu, edited again on the re-read tree, written and re-read again.
 package main
 
 import (
@@ -91,19 +94,23 @@ func main() {
 		t.Rule(fmt.Sprintf("layer 1: %d seeded histories (<= 60 operations after the start state) on model.Node: start = empty | built by 5..40 Adds in random/ascending/descending/alternating-extremes/inside-out order | "+
 			"foreign-shaped valid tree; operations = mixed add/re-add/remove-present/remove-absent or fill/drain(/refill) in adversarial orders; key universes small (letters, numeric strings, prefix families incl. \\x00/\\x01 suffixes, "+
 			"padded, 2..5-key alphabets, punctuation, random abc strings, sometimes the empty key) so collisions are frequent; all invariants checked after every operation. "+
-			"layer 2: %d histories inside pkg/testdata/test.pdf under /Names /Dests (values = destination arrays) or /EmbeddedFiles (values = file specifications, Remove with the xref table), written with WriteContextFile, "+
-			"re-read raw (own object walk incl. /Limits of every kid) and via pdfcpu (ReadAndValidate -> ctx.Names), edited again (<= 24 ops) on the re-read tree, written and re-read again. "+
+			"layer 2: %d histories inside a document, under /Names /Dests (values = destination arrays) or /EmbeddedFiles (values = file specifications, Remove with the xref table): start = empty or Add-built tree in pkg/testdata/test.pdf | "+
+			"4..33 keys in a pdfgen document (leaves of <= 1..6 entries, fan-out max(2, leaf size), depth up to 6, literal and hex key strings) read through ReadAndValidate and compared with what was generated; "+
+			"then <= 60 operations, WriteContextFile, raw re-read (pdfstrict + own object walk incl. /Limits of every kid, sorted order, values), re-read via pdfcpu (ReadAndValidate -> ctx.Names, all layer-1 checks), "+
+			"<= 24 more operations on the re-read tree, written and re-read again. "+
 			"A history is non-trivial when it reaches a tree of depth >= 2 or removes a present key", nMem, nDoc))
 		t.Assume("re-adding an existing key is not documented (the code ignores the new value when no NameMap is passed, and renames the key with a \\x01 suffix when one is): error, keep-old and overwrite are all accepted; the reference map follows what Value reports")
 		t.Assume("Remove's 'empty' result is documented ('true if this node is an empty leaf node after removal'): checked to be true exactly when the last key was removed")
 		t.Assume("limits of an EMPTY root are unspecified and not checked; for every non-empty node (root included, pdfcpu tracks root limits internally and Value consults them) Kmin/Kmax must equal the min/max key below it")
 		t.Assume("max entries per leaf (maxEntries = 3, unexported) is not asserted: pdfcpu documents that foreign leaves may be larger; only observed (max_leaf_entries_seen)")
-		t.Assume("layer 2 keys are text: ASCII, a few with delimiters/control bytes (pdfcpu itself appends \\x01), valid UTF-8, and — as separately keyed classes — keys with a backslash and the empty key; invalid UTF-8 keys are out of scope (pdfcpu re-encodes key bytes as text)")
-		t.Assume("layer 2 uses pdfcpu's object parser for the raw re-read (only the name tree walk is independent) until pdfstrict is available; Dests entries are removed with a nil xref table because Remove(xRefTable, ..) deletes the value's object graph (= the page) — pdfcpu itself only removes from EmbeddedFiles")
+		t.Assume("layer 2 keys are non-empty text: ASCII, a few with delimiters/control bytes (pdfcpu itself appends \\x01), valid UTF-8, and — as a separately keyed class — keys with a backslash; invalid UTF-8 keys are out of scope (pdfcpu re-encodes key bytes as text)")
+		t.Assume("the EMPTY key is exercised on model.Node only (layer 1): api.AddAttachments derives ids from file names (never empty) and pdfcpu ignores bookmarks with an empty title, so no document operation of pdfcpu produces it; pdfcpu's reader uses \"\" as 'no key yet' sentinel and drops such a tree (a reader limitation for foreign files, outside this property)")
+		t.Assume("Dests entries are removed with a nil xref table: Remove(xRefTable, ..) releases the value's object graph guarded by the reference counts that validation established (pdfcpu's RemoveBookmarks / migrateNamedDests rely on them); destinations added by the harness refer to page 1 without being counted, so releasing them would eventually free the page. The xref-table path is exercised on EmbeddedFiles, as RemoveAttachments does")
+		t.Assume("the tree is edited the way pdfcpu's own commands do it: in place through ctx.Names[name] (model.Context.AddAttachment / RemoveAttachments, bookmark creation), relying on WriteContext -> BindNameTrees to persist it; a tree that became empty is not written (pdfcpu removes the EmbeddedFiles entry instead)")
 
 		var mu sync.Mutex
 		total := obs{}
-		maxKeys := []string{"max_depth_seen", "max_leaf_entries_seen", "max_fanout_seen"}
+		maxKeys := []string{"max_depth_seen", "max_leaf_entries_seen", "max_fanout_seen", "doc_generated_max_depth"}
 		merge := func(o obs) {
 			mu.Lock()
 			for k, v := range o {
